@@ -209,9 +209,11 @@ int main(int argc, char **argv)
                   r.count("transitions");
                   colvar *cv = px->cv("v");
                   double kTjd = cv->fj.real_value;
-                  // the applied forces correspond to the variable force fb (minus the hidden Jacobian force when hideJacobian is on)
-                  double expect = fb[s] + ((hide && sub) ? -kTjd : 0.0) + (hide ? 0.0 : kTjd);
-                  if (hide && !sub) expect = fb[s];
+                  // The forces fed in correspond to the variable force fb, minus the compensating Jacobian force when hideJacobian
+                  // is on.  A total force of the current step cannot contain anything Colvars applies at this step (no engine
+                  // with this convention includes it), so there is nothing to undo: the report is the projected force of the
+                  // atoms, plus the Jacobian term unless it is hidden; subtractAppliedForce changes nothing here.
+                  double expect = hide ? fb[s] - kTjd : fb[s] + kTjd;
                   double got = cv->total_force().real_value;
                   if (s >= 1 && !close_rel(got, expect, std::max(1.0, std::fabs(expect)), 1e-9, 1e-10)) {
                     r.violation(std::string("C07:same-step:total-force-differs-from-applied-force-plus-jacobian:") + c.name + (hide ? ":hideJacobian" : "") + (sub ? ":subtractAppliedForce" : ""),
